@@ -794,3 +794,280 @@ def gen_Network(repo):
     L.append("def labelRaiseConds : List String := %s" % lean_list([lean_str(s) for _, s in tests]))
     L.append("\nend Strengths.Gen")
     return "\n".join(L) + "\n"
+
+
+# =============================================================================================
+# C20: validation tables (alias lists, mandatory keys, enumerations, size / range tests, field dimensions)
+# =============================================================================================
+_VAL_MODULES = ["units.py", "rdnetwork.py", "rdgridspace.py", "rdgraphspace.py", "rdsystem.py", "rdscript.py"]
+
+
+def _class_func(src, cls, name, setter=False):
+    for n in src.tree.body:
+        if isinstance(n, ast.ClassDef) and n.name == cls:
+            for f in n.body:
+                if isinstance(f, ast.FunctionDef) and f.name == name:
+                    is_setter = any(isinstance(dd, ast.Attribute) and dd.attr == "setter" for dd in f.decorator_list)
+                    if is_setter == setter:
+                        return f
+    raise AnchorLost("%s:%s.%s%s" % (src.rel, cls, name, " setter" if setter else ""))
+
+
+def _membership_lists(src, fn, var):
+    """string lists L of tests `var not in L` / `not var in L` (that guard a raise) inside fn"""
+    out = []
+    for n in ast.walk(fn):
+        if not (isinstance(n, ast.If) and _raises(n.body)):
+            continue
+        t = n.test
+        neg = False
+        if isinstance(t, ast.UnaryOp) and isinstance(t.op, ast.Not):
+            t, neg = t.operand, True
+        if isinstance(t, ast.Compare) and len(t.ops) == 1 and isinstance(t.comparators[0], ast.List) \
+                and _norm(src, t.left) == var:
+            if (isinstance(t.ops[0], ast.NotIn) and not neg) or (isinstance(t.ops[0], ast.In) and neg):
+                out.append(str_list(t.comparators[0]))
+    return out
+
+
+def _raise_tests(src, fn):
+    return [s for _, s in sorted((n.lineno, _norm(src, n.test)) for n in ast.walk(fn) if isinstance(n, ast.If) and _raises(n.body))]
+
+
+def _mandatory_keys(src, fn):
+    """keys of `d` the function cannot do without: `if "k" in d : .. else : raise`, and `d["k"]` read outside
+    any `if "k" in d` guard"""
+    mand = []
+
+    def visit(stmts, guarded):
+        for st in stmts:
+            if isinstance(st, ast.If):
+                m = re.fullmatch(r"\"([^\"]+)\"ind", _norm(src, st.test))
+                if m:
+                    if _raises(st.orelse) and m.group(1) not in mand:
+                        mand.append(m.group(1))
+                    scan(st.test, guarded)
+                    visit(st.body, guarded | {m.group(1)})
+                    visit(st.orelse, guarded)
+                    continue
+                scan(st.test, guarded)
+                visit(st.body, guarded)
+                visit(st.orelse, guarded)
+            elif isinstance(st, (ast.For, ast.While)):
+                scan(st.iter if isinstance(st, ast.For) else st.test, guarded)
+                visit(st.body, guarded)
+            elif isinstance(st, ast.FunctionDef):
+                continue
+            else:
+                scan(st, guarded)
+
+    def scan(node, guarded):
+        for n in ast.walk(node):
+            if isinstance(n, ast.Subscript) and isinstance(n.value, ast.Name) and n.value.id == "d" \
+                    and isinstance(n.ctx, ast.Load) and isinstance(n.slice, ast.Constant) and isinstance(n.slice.value, str):
+                if n.slice.value not in guarded and n.slice.value not in mand:
+                    mand.append(n.slice.value)
+    visit(fn.body, set())
+    return mand
+
+
+@group
+def gen_Validation(repo):
+    srcs = {m: PySrc(repo, "src/strengths/" + m) for m in _VAL_MODULES}
+    L = ["namespace Strengths.Gen\n"]
+
+    # ---- alias tables and mandatory keys of every function that calls process_input_dict_keys
+    tables = []
+    for m in _VAL_MODULES:
+        src = srcs[m]
+        for fn in src.tree.body:
+            if not isinstance(fn, ast.FunctionDef):
+                continue
+            for n in ast.walk(fn):
+                if isinstance(n, ast.Call) and _norm(src, n.func).endswith("process_input_dict_keys") and len(n.args) >= 2:
+                    if not isinstance(n.args[1], ast.List):
+                        raise AnchorLost("%s:%s synonyms literal" % (m, fn.name))
+                    syn = [str_list(e) for e in n.args[1].elts]
+                    if n.keywords or len(n.args) > 2:
+                        raise AnchorLost("%s:%s process_input_dict_keys policy argument" % (m, fn.name))
+                    tables.append((fn.name, syn, _mandatory_keys(src, fn)))
+    want = {"unitssystem_from_dict", "unitsdimensions_from_dict", "unitarray_from_dict", "species_from_dict", "reaction_from_dict",
+            "rdnetwork_from_dict", "rdgridspace_from_dict", "rdgraphspacenode_from_dict", "rdgraphspaceedge_from_dict",
+            "rdgraphspace_from_dict", "rdsystem_from_dict", "rdscript_from_dict"}
+    missing = want - {t[0] for t in tables}
+    if missing:
+        raise AnchorLost("process_input_dict_keys call in " + ", ".join(sorted(missing)))
+    L.append("/-- synonym lists of every `process_input_dict_keys(d, [[..],..])` call, per enclosing function -/")
+    L.append("def aliasTable : List (String × List (List String)) := [")
+    L.append(",\n".join("  (%s, %s)" % (lean_str(f), lean_list([lean_list([lean_str(k) for k in s]) for s in syn])) for f, syn, _ in tables))
+    L.append("]")
+    L.append("/-- keys (canonical names) each of these functions cannot do without -/")
+    L.append("def mandatoryKeys : List (String × List String) := %s\n" % lean_list(
+        ["(%s, %s)" % (lean_str(f), lean_list([lean_str(k) for k in mand])) for f, _, mand in tables]))
+
+    # ---- process_input_dict_keys itself: the raise sites and the default policy
+    vp = PySrc(repo, "src/strengths/value_processing.py")
+    pk = vp.func("process_input_dict_keys")
+    dflt = [const_str(d) for d in pk.args.defaults]
+    tests = []
+    for n in ast.walk(pk):
+        if isinstance(n, ast.If) and any(isinstance(b, ast.If) and _raises(b.body) for b in n.body):
+            inner = [b for b in n.body if isinstance(b, ast.If) and _raises(b.body)][0]
+            tests.append((n.lineno, _norm(vp, n.test), _norm(vp, inner.test)))
+    tests = sorted(tests)
+    if len(tests) != 2 or dflt != ["error"]:
+        raise AnchorLost("value_processing.py:process_input_dict_keys raise sites / default policy")
+    L.append("/-- `process_input_dict_keys`: default policy and the two (condition, policy test) pairs that raise -/")
+    L.append("def keysDefaultPolicy : String := %s" % lean_str(dflt[0]))
+    L.append("def keysRaiseSites : List (String × String) := %s" % lean_list(["(%s, %s)" % (lean_str(a), lean_str(b)) for _, a, b in tests]))
+    ru = vp.func("retrive_units_system_from_dict")
+    words = []
+    for n in ast.walk(ru):
+        if isinstance(n, ast.Compare) and _norm(vp, n.left) == "v" and isinstance(n.ops[0], ast.Eq):
+            words.append((n.lineno, const_str(n.comparators[0])))
+    L.append("/-- strings accepted for a \"units\" key -/")
+    L.append("def unitsKeywords : List String := %s\n" % lean_list([lean_str(w) for _, w in sorted(words)]))
+
+    # ---- enumerations
+    grid, graph, script, net, rds, units = (srcs["rdgridspace.py"], srcs["rdgraphspace.py"], srcs["rdscript.py"],
+                                            srcs["rdnetwork.py"], srcs["rdsystem.py"], srcs["units.py"])
+    sbc = _class_func(grid, "RDGridSpace", "set_boundary_conditions")
+    axes = _membership_lists(grid, sbc, "axis")
+    conds = _membership_lists(grid, sbc, "boundary_conditions[axis]")
+    pol = _membership_lists(script, _class_func(script, "RDScript", "sampling_policy", setter=True), "sampling_policy")
+    modes = _membership_lists(script, _class_func(script, "RDScript", "init_state_processing", setter=True), "init_state_processing")
+    for nm, l in (("axes", axes), ("boundary conditions", conds), ("sampling policies", pol), ("processing modes", modes)):
+        if len(l) != 1:
+            raise AnchorLost("accepted-value list of " + nm)
+    L.append("/-- accepted values of the Python setters (anything else raises) -/")
+    L.append("def pyAxes : List String := %s" % lean_list([lean_str(x) for x in axes[0]]))
+    L.append("def pyBoundary : List String := %s" % lean_list([lean_str(x) for x in conds[0]]))
+    L.append("def pyPolicies : List String := %s" % lean_list([lean_str(x) for x in pol[0]]))
+    L.append("def pyModes : List String := %s" % lean_list([lean_str(x) for x in modes[0]]))
+    # the defaults assigned before validation in set_boundary_conditions
+    dfl = None
+    for n in sbc.body:
+        if isinstance(n, ast.Assign) and _norm(grid, n.targets[0]) == "self._boundary_conditions" and isinstance(n.value, ast.Dict):
+            dfl = [(const_str(k), const_str(v)) for k, v in zip(n.value.keys, n.value.values)]
+    if dfl is None:
+        raise AnchorLost("rdgridspace.py:set_boundary_conditions defaults")
+    L.append("def pyBoundaryDefaults : List (String × String) := %s\n" % lean_list(["(%s, %s)" % (lean_str(a), lean_str(b)) for a, b in dfl]))
+
+    # ---- grid constructor size tests, cell_env length test
+    ctor = _class_func(grid, "RDGridSpace", "__init__")
+    sz = []
+    for n in ctor.body:
+        if isinstance(n, ast.If) and _raises(n.body):
+            sz.append(ExprTr(grid, {"self._w": "w", "self._h": "h", "self._d": "d"}).tr(n.test))
+    if len(sz) != 3:
+        raise AnchorLost("rdgridspace.py:RDGridSpace.__init__ size tests")
+    L.append("/-- `RDGridSpace.__init__`: raises when one of its three size tests holds -/")
+    L.append("def gridSizeBad (w h d : Int) : Bool := (%s)" % " || ".join(sz))
+    ce = _class_func(grid, "RDGridSpace", "cell_env", setter=True)
+    lt = None
+    for n in ast.walk(ce):
+        if isinstance(n, ast.If) and _raises(n.body) and "len(v)" in _norm(grid, n.test):
+            lt = ExprTr(grid, {"len(v)": "len", "self.size()": "size"}).tr(n.test)
+    if lt is None:
+        raise AnchorLost("rdgridspace.py:cell_env setter length test")
+    L.append("/-- `RDGridSpace.cell_env` setter (array form): raises when -/")
+    L.append("def cellEnvLenBad (len size : Int) : Bool := %s\n" % lt)
+
+    # ---- graph index test, species / reaction / environment index tests
+    gci = _class_func(graph, "RDGraphSpace", "get_cell_index")
+    gt = [n for n in gci.body if isinstance(n, ast.If) and _raises(n.body)]
+    if len(gt) != 1:
+        raise AnchorLost("rdgraphspace.py:get_cell_index range test")
+    L.append("/-- `RDGraphSpace.get_cell_index`: raises when -/")
+    L.append("def graphIndexBad (size i : Int) : Bool := %s" % ExprTr(graph, {"cell_index": "i", "self.size()": "size"}).tr(gt[0].test))
+    chk = _class_func(graph, "RDGraphSpace", "check")
+    et = [ExprTr(graph, {"edge.i": "i", "edge.j": "i", "self.size()": "size"}).tr(n.test) for n in ast.walk(chk)
+          if isinstance(n, ast.If) and _raises(n.body) and "self.size()" in _norm(graph, n.test)]
+    if len(et) != 2 or et[0] != et[1]:
+        raise AnchorLost("rdgraphspace.py:check edge index tests")
+    L.append("def edgeIndexBad (size i : Int) : Bool := %s" % et[0])
+    for fname, cnt, lean in (("get_species_index", "self.nspecies()", "speciesIndexOk"), ("get_reaction_index", "self.nreactions()", "reactionIndexOk"),
+                             ("get_environment_index", "self.nenvironments()", "environmentIndexOk")):
+        fn = _class_func(net, "RDNetwork", fname)
+        first = fn.body[-1] if isinstance(fn.body[-1], ast.If) else None
+        for st in fn.body:
+            if isinstance(st, ast.If):
+                first = st
+                break
+        inner = [b for b in first.body if isinstance(b, ast.If)] if first is not None else []
+        if first is None or not _norm(net, first.test).startswith("isnumber(") or len(inner) != 1:
+            raise AnchorLost("rdnetwork.py:%s number branch" % fname)
+        L.append("def %s (n i : Int) : Bool := %s" % (lean, ExprTr(net, {"index": "i", cnt: "n"}).tr(inner[0].test)))
+    L.append("")
+
+    # ---- named dimensions and the dimension every quantity field demands
+    named = {}
+    for fn in units.tree.body:
+        if isinstance(fn, ast.FunctionDef) and fn.name.endswith("_units_dimensions"):
+            for n in ast.walk(fn):
+                if isinstance(n, ast.Return) and isinstance(n.value, ast.Call) and getattr(n.value.func, "id", "") == "UnitsDimensions":
+                    kw = {k.arg: int(const_number(units, k.value, {})) for k in n.value.keywords}
+                    named[fn.name] = (kw.get("space", 0), kw.get("time", 0), kw.get("quantity", 0))
+    for k in ("density", "surface", "volume", "quantity", "space", "time"):
+        if k + "_units_dimensions" not in named:
+            raise AnchorLost("units.py:%s_units_dimensions" % k)
+
+    def dim_of(src, node):
+        t = _norm(src, node)
+        m = re.fullmatch(r"(\w+)\(\)", t)
+        if m and m.group(1) in named:
+            return named[m.group(1)]
+        if isinstance(node, ast.Dict):
+            kw = {const_str(k): int(const_number(src, v, {})) for k, v in zip(node.keys, node.values)}
+            return (kw.get("space", 0), kw.get("time", 0), kw.get("quantity", 0))
+        raise AnchorLost("%s: dimension expression %s" % (src.rel, t))
+
+    def field_dim(src, cls, prop):
+        fn = _class_func(src, cls, prop, setter=True)
+        for n in ast.walk(fn):
+            if isinstance(n, ast.Call) and _norm(src, n.func) == "valproc.process_unitvar_input" and len(n.args) >= 3:
+                return dim_of(src, n.args[2])
+            if isinstance(n, ast.Call) and getattr(n.func, "id", "") in ("UnitValue", "UnitArray"):
+                conv = {k.arg: _norm(src, k.value) for k in n.keywords}
+                for a in n.args[1:2]:
+                    if isinstance(a, ast.Call) and getattr(a.func, "id", "") == "Units":
+                        dims = [k.value for k in a.keywords if k.arg == "dim"] + list(a.args[1:2])
+                        if dims and (conv.get("convert") == "False" or cls == "RDSystem"):
+                            return dim_of(src, dims[0])
+        raise AnchorLost("%s:%s.%s setter dimension" % (src.rel, cls, prop))
+    fields = [(net, "Species", "D"), (net, "Species", "density"), (grid, "RDGridSpace", "cell_vol"),
+              (graph, "RDGraphSpaceNode", "volume"), (graph, "RDGraphSpaceEdge", "surface"), (graph, "RDGraphSpaceEdge", "distance"),
+              (script, "RDScript", "t_sample"), (script, "RDScript", "time_step"), (script, "RDScript", "t_max"),
+              (script, "RDScript", "sampling_interval"), (rds, "RDSystem", "state")]
+    L.append("/-- named dimensions of units.py: (space, time, quantity) exponents -/")
+    L.append("def namedDims : List (String × Int × Int × Int) := %s" % lean_list(
+        ["(%s, (%d : Int), (%d : Int), (%d : Int))" % ((lean_str(k),) + v) for k, v in sorted(named.items())]))
+    L.append("/-- the dimension demanded by the setter of each quantity field -/")
+    L.append("def fieldDims : List (String × Int × Int × Int) := %s\n" % lean_list(
+        ["(%s, (%d : Int), (%d : Int), (%d : Int))" % ((lean_str(c + "." + p),) + field_dim(s, c, p)) for s, c, p in fields]))
+
+    # ---- units symbol checks: which label list each _check_* consults
+    chk = []
+    for name in ("_check_space", "_check_time", "_check_quantity"):
+        fn = _class_func(units, "UnitsSystem", name)
+        m = None
+        for n in ast.walk(fn):
+            if isinstance(n, ast.If) and _raises(n.body):
+                mm = re.fullmatch(r"notvin_units_labels_dict\[\"(\w+)\"\]", _norm(units, n.test))
+                if mm:
+                    m = mm.group(1)
+        if m is None:
+            raise AnchorLost("units.py:UnitsSystem.%s membership test" % name)
+        chk.append((name, m))
+    L.append("def sysCheckLists : List (String × String) := %s\n" % lean_list(["(%s, %s)" % (lean_str(a), lean_str(b)) for a, b in chk]))
+
+    # ---- coarse-graining map rules, state-index guard
+    cg = PySrc(repo, "src/strengths/coarsegrain.py")
+    L.append("/-- raise conditions of `check_index_map_validity`, in order -/")
+    L.append("def indexMapRaiseConds : List String := %s" % lean_list([lean_str(s) for s in _raise_tests(cg, cg.func("check_index_map_validity"))]))
+    gsi = _class_func(rds, "RDSystem", "get_state_index")
+    assigns = [(_norm(rds, n.targets[0]), _norm(rds, n.value)) for n in gsi.body if isinstance(n, ast.Assign)]
+    L.append("/-- `RDSystem.get_state_index`: how the two indices are obtained -/")
+    L.append("def stateIndexSources : List (String × String) := %s" % lean_list(["(%s, %s)" % (lean_str(a), lean_str(b)) for a, b in assigns]))
+    L.append("\nend Strengths.Gen")
+    return "\n".join(L) + "\n"
